@@ -87,15 +87,31 @@ def normName (n : Option (List Char)) : Option (List Char) :=
 
 /-! ### the address class of `Proofs/Peg.lean`, decidably
 
-`local@domain` with both sides dot-atoms of the grammar (an `atext` run, then `.atext+` groups) and not starting with
-a white-space character.  `Proofs/Peg.lean` proves that every mailbox with such an address — whatever its name —
+`local@domain`, the local part a dot-atom of the grammar (an `atext` run, then `.atext+` groups) or a quoted string
+(blanks, qtext, non-ASCII, quoted-pairs), the domain a dot-atom or a bracketed literal of `dtext`, not starting with a
+white-space character.  `Proofs/Peg.lean` proves that every mailbox with such an address — whatever its name —
 survives Display followed by parsing; the correspondence check evaluates this on every real mailbox. -/
 def dtailB : Nat → List Char → Bool
   | _, [] => true
   | 0, _ :: _ => false
   | f + 1, c :: cs => c == '.' && !(cs.takeWhile isAtext).isEmpty && dtailB f (cs.dropWhile isAtext)
 def dotAtomB (u : List Char) : Bool := !(u.takeWhile isAtext).isEmpty && dtailB u.length (u.dropWhile isAtext)
+def rawQB : List Char → Bool
+  | [] => true
+  | c :: r =>
+    if c = '\\' then (match r with
+      | c2 :: r2 => isText true c2 && !isWsp c2 && rawQB r2
+      | [] => false)
+    else (isWsp c || isQtext c || nonAscii c) && rawQB r
+def quotedLocalB (u : List Char) : Bool :=
+  match u with
+  | x :: r => x == '"' && r.getLast? == some '"' && rawQB r.dropLast
+  | [] => false
+def literalB (d : List Char) : Bool :=
+  match d with
+  | x :: r => x == '[' && r.getLast? == some ']' && r.dropLast.all isDtext
+  | [] => false
 def addrClassB (u d : List Char) : Bool :=
-  dotAtomB u && dotAtomB d && (match u with | x :: _ => !isUWs x | [] => false)
+  (dotAtomB u || quotedLocalB u) && (dotAtomB d || literalB d) && (match u with | x :: _ => !isUWs x | [] => false)
 
 end LV.Mailbox
